@@ -443,6 +443,15 @@ func (fr *FnRun) evalQuant(e *Expr, env *Env) Val {
 	if e.X != nil {
 		lo := fr.evalTerm(e.X, env)
 		hi := fr.evalTerm(e.Y, env)
+		// a small constant range is expanded: ground facts instead of a quantifier whose pattern
+		// `a[p + k]` would miss the instance k = 0 (written `a[p]`)
+		if e.Kind == "forall" && len(e.Vars) == 1 && !strings.Contains(e.Vars[0], ":") && lo.IsInt() && hi.IsInt() && lo.I.IsInt64() && hi.I.IsInt64() && hi.I.Int64()-lo.I.Int64() <= 16 && e.Z != nil && !(e.Z.Kind == "call" && e.Z.X != nil && e.Z.X.Kind == "ident" && (e.Z.X.Name == "trigger" || e.Z.X.Name == "triggers")) {
+			var cs []*Term
+			for k := lo.I.Int64(); k < hi.I.Int64(); k++ {
+				cs = append(cs, fr.evalBool(e.Z, env.with(e.Vars[0], Int(k))))
+			}
+			return And(cs...)
+		}
 		var cs []*Term
 		for _, b := range bound {
 			cs = append(cs, Le(lo, b), Lt(b, hi))
